@@ -49,13 +49,16 @@ RULE = ("histories of ask / tell (plus about 10 % out-of-order and ask_dqd / tel
         "changing every iteration; with/without extra fields passed to tell (routed like objective and measures), "
         "main archive float64 or float32 with evaluation values not representable in float32; strata by what the archive accepts: everything, something, nothing at all "
         "(threshold_min above all objectives), nothing for a stretch then something, plus a restart-heavy and a "
-        "protocol stratum. A case is non-trivial when some accepted ask after the first has both emitters to "
+        "protocol stratum, and a zeta = 0 stratum (each row acceptable with one probability, per-emitter batch sizes 1-8, so that close "
+        "success rates meet very different selection counts and any exploration bonus would flip a comparison). A case is non-trivial when some accepted ask after the first has both emitters to "
         "reselect and a pool larger than num_active (so that a selection by score actually happens); counted once "
         "per distinct op list")
 PARTIAL = []
 ASSUMPTIONS = [
     "`_selection` and `_success` are read by attribute access (BanditScheduler has no public accessor for its counts)",
-    "'solutions inserted' is read as: rows whose add-feedback status returned by the archive is non-zero",
+    "'solutions inserted' is read as: rows whose add-feedback status returned by the archive is non-zero. "
+    "Documented reading, not a violation: in batch mode several rows of one batch aimed at the same empty cell all "
+    "report status 2 although only one of them is stored, so the success count can differ between the add modes",
     "'never selected' is read as: selection count 0, i.e. the emitter has not generated a row yet (the score formula "
     "divides by the selection count)",
     "UCB1 scores are computed by the harness in exact rationals for success/selection and in floating point with an "
@@ -114,8 +117,10 @@ def make_eval(it, n, seed, kind, hot, counter, noise=False):
     elif kind == "some":
         obj = np.array([rng.randrange(3) for _ in range(n)], dtype=float) + frac + eps(0)
     else:
-        obj = np.array([rng.randrange(4) for _ in range(n)], dtype=float) + frac + eps(0) + \
-            (200.0 + counter if hot else 0.0)
+        obj = np.array([rng.randrange(4) for _ in range(n)], dtype=float) + frac + eps(0)
+        # `hot`: True / False for the whole tell, or the probability with which each single row is acceptable
+        mask = np.full(n, hot) if isinstance(hot, bool) else np.array([rng.random() < hot for _ in range(n)], dtype=bool)
+        obj = obj + np.where(mask, 200.0 + counter, 0.0)
     meas = np.stack([cx + frac + eps(1), cy + ((it % 60) + 1) / 64.0 + eps(2)], axis=1).reshape(n, MDIM)
     fields = {"tag": (it * 1000 + p).astype(np.int64),
               "vec": np.stack([p.astype(float) + eps(3), np.full(n, float(it)) + eps(4)], axis=1).reshape(n, 2)}
@@ -250,6 +255,29 @@ def gen_with(kind, rng, style="plain"):
                 bad = rng.choice(["askdqd", "telldqd", "tell" if name == "ask" else "ask"])
                 ops.append(mk_op(bad, rng, n, sizes, p_restart, kind, t, cold))
             ops.append(mk_op(name, rng, n, sizes, p_restart, kind, t, cold))
+    case["ops"] = ops
+    return case
+
+
+def gen_zeta0(rng):
+    """zeta = 0 (pure exploitation): histories in which the exploitation terms of previously selected emitters are
+    close while their selection counts differ widely, so that any exploration bonus would flip a comparison.  Each
+    row is acceptable with one probability for all emitters (threshold_min above the other objectives), every emitter
+    has its own batch size, (nearly) every slot is reselected at every ask."""
+    n = rng.choice([3, 3, 4, 5])
+    k = rng.choice([1, 1, 2])
+    base = [rng.choice([1, 1, 2, 4, 8]) for _ in range(n)]
+    case = {
+        "archive": "nothing-then-some", "pool": n, "num_active": k, "zeta": rng.choice([0.0, 0]),
+        "reselect": rng.choice(["all", "all", "terminated"]), "mode": rng.choice(["batch", "batch", "single"]),
+        "result": False, "emitters": [{"counter": False, "start": 0} for _ in range(n)],
+        "extra": False, "dtype": "f64", "noise": False,
+    }
+    p_hot = rng.choice([0.3, 0.5, 0.7])
+    ops = []
+    for _ in range(rng.randint(12, 24)):
+        ops.append({"op": "ask", "ns": list(base)})
+        ops.append({"op": "tell", "seed": rng.randrange(1 << 30), "restart": [], "hot": p_hot})
     case["ops"] = ops
     return case
 
@@ -634,6 +662,7 @@ def _run(ctx, quick):
                 nontrivial=nontrivial, time_budget=tb(4, 60))
     ctx.explore("protocol", lambda r: gen_with("some", r, style="protocol"), run_case, ctx.n(60, 2000),
                 nontrivial=nontrivial, time_budget=tb(3, 30))
+    ctx.explore("zeta-zero", gen_zeta0, run_case, ctx.n(80, 4000), nontrivial=nontrivial, time_budget=tb(4, 50))
 
 
 def replay(ctx, case):
